@@ -159,6 +159,16 @@ pub fn dispatch(op: &str, args: &[&str]) -> String {
                 None => "ERR".into(),
             }
         }
+        "succ" => {
+            let Some(mut b) = board_from(args[0]) else { return "badfen".into() };
+            let mut out = Vec::new();
+            for mv in b.generate_legal_moves() {
+                b.make(mv);
+                out.push(format!("{}>{}", mv.to_uci_string(), fen_out(&b)));
+                b.unmake(mv);
+            }
+            sorted_join(out)
+        }
         "mkunmk" => {
             // every move the generator can emit: make + unmake must restore the snapshot
             let Some(mut b) = board_from(args[0]) else { return "badfen".into() };
@@ -264,6 +274,41 @@ pub fn dispatch(op: &str, args: &[&str]) -> String {
                 Err(e) => format!("err {} {}", err_kind(&e), same_flag(&before, &b)),
             }
         }
+        "finduci-all" => {
+            // all 64 x 64 x {none,q,r,b,n,k} move strings: accepted ones listed, rejected ones counted
+            let Some(mut b) = board_from(args[0]) else { return "badfen".into() };
+            let before = snapshot(&b);
+            let mut accepted = Vec::new();
+            let (mut notexist, mut notvalid, mut changed) = (0u32, 0u32, 0u32);
+            for src in 0..64u32 {
+                for tgt in 0..64u32 {
+                    for promo in ["", "q", "r", "b", "n", "k"] {
+                        let s = format!("{}{}{}", inkayaku_board::square_to_string(src), inkayaku_board::square_to_string(tgt), promo);
+                        match b.find_uci(&s) {
+                            Ok(mv) => accepted.push(format!("{}>{}", s, mv.to_uci_string())),
+                            Err(MoveFromUciError::MoveDoesNotExist(_)) => notexist += 1,
+                            Err(MoveFromUciError::MoveIsNotValid(_)) => notvalid += 1,
+                        }
+                        if snapshot(&b) != before {
+                            changed += 1;
+                        }
+                    }
+                }
+            }
+            format!("{} notexist={} notvalid={} {}", sorted_join(accepted), notexist, notvalid, if changed == 0 { "same" } else { "changed" })
+        }
+        "leaper" => {
+            let sq: usize = args[1].parse().unwrap();
+            if sq >= 64 { return "bad-request".into() }
+            let t = match args[0] {
+                "k" => inkayaku_board::verif::king_table(),
+                "n" => inkayaku_board::verif::knight_table(),
+                "wp" => inkayaku_board::verif::white_pawn_table(),
+                "bp" => inkayaku_board::verif::black_pawn_table(),
+                _ => return "bad-request".into(),
+            };
+            format!("{:x}", t[sq])
+        }
         "makeuci" => {
             let Some(mut b) = board_from(args[0]) else { return "badfen".into() };
             let Some(s) = token_string(args[1]) else { return "bad-request".into() };
@@ -352,6 +397,7 @@ pub fn dispatch(op: &str, args: &[&str]) -> String {
             }
         }
         "pgn" => pgn_op(args),
+        "pgnreplay" => pgnreplay_op(args),
         "scorefromvalue" => {
             // value fullmove turn
             let Some(b) = board_from(args[0]) else { return "badfen".into() };
@@ -494,6 +540,9 @@ fn latin1_hex(s: &str) -> String {
 
 fn pgn_op(args: &[&str]) -> String {
     use inkayaku_pgn::reader::{PgnRawParser, PgnRawParserError};
+    if args.len() < 3 {
+        return "bad-request".into();
+    }
     let chunk: usize = match args[0].parse() { Ok(c) if c >= 1 => c, _ => return "bad-request".into() };
     let sched: Vec<usize> = if args[1] == "-" { Vec::new() } else {
         match args[1].split(',').map(|s| s.parse::<usize>()).collect::<Result<Vec<_>, _>>() {
@@ -535,6 +584,44 @@ fn pgn_op(args: &[&str]) -> String {
         }
     }
     if items.is_empty() { "-".into() } else { items.join(" | ") }
+}
+
+/// read the games with the streaming reader and replay their SAN moves on a board (start position, or the FEN tag)
+fn pgnreplay_op(args: &[&str]) -> String {
+    use inkayaku_pgn::reader::PgnRawParser;
+    if args.len() < 3 {
+        return "bad-request".into();
+    }
+    let chunk: usize = match args[0].parse() { Ok(c) if c >= 1 => c, _ => return "bad-request".into() };
+    let sched: Vec<usize> = if args[1] == "-" { Vec::new() } else {
+        match args[1].split(',').map(|s| s.parse::<usize>()).collect::<Result<Vec<_>, _>>() {
+            Ok(v) if v.iter().all(|&x| x >= 1) => v,
+            _ => return "bad-request".into(),
+        }
+    };
+    let Some(data) = token_bytes(args[2]) else { return "bad-request".into() };
+    let reader = SchedReader { data, pos: 0, sched, k: 0 };
+    let mut out = Vec::new();
+    for item in PgnRawParser::with_chunk_size(reader, chunk) {
+        match item {
+            Ok(game) => {
+                let mut board = match game.tag_pairs.get("FEN") {
+                    Some(f) => match Bitboard::from_fen_string(f) { Ok(b) => b, Err(_) => { out.push("badfen".to_string()); continue; } },
+                    None => Bitboard::default(),
+                };
+                let mut ok = true;
+                for m in &game.moves {
+                    match board.pgn_to_bb(&m.mv) {
+                        Ok(mv) => board.make(mv),
+                        Err(_) => { ok = false; break; }
+                    }
+                }
+                out.push(if ok { fen_out(&board) } else { "SANERR".to_string() });
+            }
+            Err(_) => { out.push("E".to_string()); break; }
+        }
+    }
+    if out.is_empty() { "-".into() } else { out.join(" | ") }
 }
 
 /// Run one request line; a panic inside the real code is reported as `PANIC`.
